@@ -30,9 +30,12 @@ from __future__ import annotations
 
 import copy
 import hashlib
+import json
 import os
 import random
 import signal
+import subprocess
+import sys
 from fractions import Fraction
 
 import fpy2 as fp
@@ -258,6 +261,29 @@ def call_impl(fn, args, ctx_text, seconds=20):
     return out + ((None if g1 == g0 else (g0, g1)),)
 
 
+def pristine_eval(src, main, args_enc, ctx_text, timeout=240):
+    """Outcome of ONE evaluation in a brand-new Python process (no history at all), as repr text of ('value', den) /
+    ('raise', TypeName); None when the subprocess could not answer (inconclusive)."""
+    req = json.dumps({'src': src, 'main': main, 'args': args_enc, 'ctx': ctx_text})
+    try:
+        p = subprocess.run([sys.executable, '-c', 'from props.c18_purity import pristine_main; pristine_main()'],
+                           input=req, capture_output=True, text=True, timeout=timeout,
+                           cwd=os.path.dirname(os.path.dirname(os.path.abspath(__file__))))
+    except (subprocess.TimeoutExpired, OSError):
+        return None
+    for line in p.stdout.splitlines():
+        if line.startswith('C18-PRISTINE '):
+            return line[len('C18-PRISTINE '):]
+    return None
+
+
+def pristine_main():
+    req = json.loads(sys.stdin.read())
+    mod = load_module(req['src'])
+    got = call_impl(getattr(mod, req['main']), dec_args(req['args']), req['ctx'], seconds=120)
+    print('C18-PRISTINE ' + (repr(got[:2]) if got[0] != 'timeout' else 'timeout'))
+
+
 # ---------------------------------------------------------------------------
 # (a) isolation
 
@@ -440,7 +466,8 @@ def apply_strategy(f, name):
     raise ValueError(name)
 
 
-NOISE_KINDS = ['stochastic-ops', 'hiprec-ops', 'real-ops', 'gmpy2-ambient', 'fpy-under-stochastic', 'tiny-ctx-ops']
+NOISE_KINDS = ['stochastic-ops', 'hiprec-ops', 'real-ops', 'gmpy2-ambient', 'fpy-under-stochastic', 'tiny-ctx-ops',
+               'round-rationals-fixed', 'round-rationals-fixed']
 # 'gmpy2-ambient-narrow' (the Python caller narrows gmpy2's ambient exponent range) is executable but NOT drawn: fpy2's
 # exact Float -> mpfr conversion reads the ambient emin/emax, so results do change -- but a caller reconfiguring gmpy2 is
 # not an "earlier evaluation or transformation", i.e. outside the property's quantifier (reported as an observation only).
@@ -505,9 +532,10 @@ class History:
             return f.with_rt(self.alt_rt)
         return f
 
-    def evaluate(self, mi, vi, args_enc, ctx_text, interp='default', why='eval'):
+    def evaluate(self, mi, vi, args_enc, ctx_text, interp='default', why='eval', scr=False):
+        """scr: the Python caller writes to every list of the returned value as soon as it has it."""
         m = self.modules[mi]
-        step = {'op': 'eval', 'mod': mi, 'variant': vi, 'args': args_enc, 'ctx': ctx_text, 'interp': interp}
+        step = {'op': 'eval', 'mod': mi, 'variant': vi, 'args': args_enc, 'ctx': ctx_text, 'interp': interp, 'scr': bool(scr)}
         self.steps.append(step)
         si = len(self.steps) - 1
         key = (mi, vi, repr(args_enc), ctx_text)
@@ -529,6 +557,11 @@ class History:
             self.old_results.append((mi, got[2]))
             if len(self.old_results) > 24:
                 self.old_results.pop(0)
+            if scr and list_ids(got[2]):
+                m['tainted'] = True
+                scribble(got[2])
+                if self.count:
+                    res.cls('b:caller-wrote-to-returned-list')
         if 'capture-mutating-profile' in m['features'] and self.count:
             res.cls('b:capture-mutating-evals')
         if entry is None:
@@ -604,9 +637,21 @@ class History:
             # the very first evaluation of the triple disagrees with the reference, and so does (identically) a fresh
             # interpreter: a semantic disagreement (C04's business), not a dependence on history.  From now on the
             # triple is held to its first evaluation.
+            pristine = pristine_eval(m['src'], 'main', args_enc, ctx_text) if vi == 0 else repr(outcome)
+            if pristine == repr(exp) and pristine != repr(outcome):
+                # a brand-new process agrees with the reference: what this process evaluated before is what differs
+                self.fail(f'process-state/first-eval-differs-from-pristine-process/{kind}', expected=exp, got=outcome,
+                          note='the reference and a brand-new process agree; this process (default AND a fresh BytecodeInterpreter) '
+                               'gives something else: module-level state left by earlier evaluations')
+                entry['expected'] = outcome
+                entry['source'] = 'first-eval:polluted'
+                return
             entry['expected'] = outcome
             entry['source'] = 'first-eval:differs-from-reference'
-            self.res.skip(f'b:first-eval-differs-from-reference(C04-domain):{kind}')
+            if pristine == repr(outcome):
+                self.res.skip(f'b:first-eval-differs-from-reference(C04-domain):{kind}')
+            else:
+                self.res.skip('b:first-eval-differs-from-reference:pristine-process-inconclusive')
             return
         elif first and entry['source'] == 'refeval':
             bucket = f'first-eval/differs-from-reference/{kind}'
@@ -646,6 +691,18 @@ class History:
             same = self.model[k0]['expected'] == self.model[k1]['expected']
             self.res.count('b:derivative-agrees-with-original' if same else 'b:derivative-differs-from-original(C07-C09)')
 
+    def sweep(self, k, seed, n=None):
+        """Evaluation steps only (each is recorded as an ordinary 'eval' step, so replay needs nothing new)."""
+        mi, vi, _, ctx_text, args_enc = self.triples[k % len(self.triples)]
+        r = random.Random(seed)
+        ctxs = list(SWEEP_CTXS)
+        r.shuffle(ctxs)
+        if self.count:
+            self.res.cls('b:context-sweeps')
+        for c in ctxs[:n or r.choice([3, 5, 7])]:
+            self.evaluate(mi, vi, args_enc, c, 'default', scr=r.random() < 0.5)
+        self.evaluate(mi, vi, args_enc, ctx_text, 'default')
+
     def noise(self, kind, seed):
         self.steps.append({'op': 'noise', 'kind': kind, 'seed': seed})
         r = random.Random(seed)
@@ -675,6 +732,17 @@ class History:
                     c = fp.MPFixedContext(r.choice([-1, 3, 8]), r.choice(list(fp.RM)[:6]))
                     fp.ops.add(x, y, ctx=c)
                     fp.ops.div(x, y, ctx=fp.IEEEContext(2, 4, fp.RM.RTZ))
+                elif kind == 'round-rationals-fixed':
+                    # direct roundings / operations on common non-dyadic rationals under fixed-point contexts of
+                    # several least digits, in a drawn order (coarse-before-fine and fine-before-coarse both occur)
+                    ns = [-1, -2, -4, -5, -9, -12, -30, 2]
+                    r.shuffle(ns)
+                    for q in (Fraction(1, 10), Fraction(3, 10), Fraction(7, 10), Fraction(1, 3), Fraction(1, 1000), Fraction(13, 10)):
+                        for nmin in ns[:r.choice([2, 3])]:
+                            c = fp.MPFixedContext(nmin, r.choice(list(fp.RM)[:6]))
+                            c.round(q)
+                            fp.ops.add(q, 1, ctx=c)
+                        fp.FixedContext(True, r.choice([-2, -6]), 16, fp.RM.RNE, fp.OV.SATURATE).round(q)
                 elif kind == 'gmpy2-ambient':
                     # the Python caller uses gmpy2 with its own settings in between
                     g = gmpy2.get_context()
@@ -725,7 +793,7 @@ class History:
             if op == 'define':
                 self.define(s['src'], [tuple(p) for p in s['params']], s['min_len'], set(s['features']))
             elif op == 'eval':
-                self.evaluate(s['mod'], s['variant'], s['args'], s['ctx'], s['interp'])
+                self.evaluate(s['mod'], s['variant'], s['args'], s['ctx'], s['interp'], scr=s.get('scr', False))
             elif op == 'transform':
                 self.transform(s['mod'], s['variant'], s['strategy'])
             elif op == 'noise':
@@ -756,6 +824,12 @@ HIST_TEMPLATES = [
     ('capture-rows', 'ROWS = [[1.0], [2.0, 3.0]]\n\n@fp.fpy\ndef main(a0):\n    r = ROWS[1]\n    r[0] = r[0] * 2\n    return [ROWS[1][0] + a0 for _ in range(2)]\n', [('a0', 'R')]),
     ('capture-helper-reads', 'K = [0.5, 1.5]\n\n@fp.fpy\ndef h0(p0):\n    return p0 * K[1]\n\n@fp.fpy\ndef main(a0):\n    return h0(a0) + sum(K)\n', [('a0', 'R')]),
     ('same-text-different-capture', 'K = [{k}]\n\n@fp.fpy\ndef main(a0):\n    return a0 * K[0]\n', [('a0', 'R')]),
+    ('range-bound-and-stored', '@fp.fpy\ndef main(a0):\n    xs = range(4)\n    xs[0] = a0\n    ys = range(1, 4)\n    ys[2] = xs[1] + a0\n    return (xs, ys)\n', [('a0', 'R')]),
+    ('range-consumer', '@fp.fpy\ndef main(a0):\n    s = a0\n    for i in range(4):\n        s = s + i\n    for j in range(1, 4):\n        s = s * j\n    return (s, sum([e for e in range(3)]))\n', [('a0', 'R')]),
+    ('range-returned', '@fp.fpy\ndef main(a0):\n    return (range(4), range(1, 4), [a0, 1, 2], range(3))\n', [('a0', 'R')]),
+    ('pairs-bound-and-stored', '@fp.fpy\ndef main(a0):\n    zs = zip(range(3), range(3))\n    zs[0] = (a0, a0)\n    es = enumerate(range(4))\n    es[1] = (a0, 7)\n    ks = [1, 2, 3]\n    ks[0] = a0\n    return (zs, es, ks, [i + j for i, j in zip(range(3), range(3))])\n', [('a0', 'R')]),
+    ('literals-under-caller-ctx', '@fp.fpy\ndef main(a0):\n    return (fp.round(0.3), 0.7 + a0, fp.round(0.1) * 3, a0 / 3, fp.round(1e-3))\n', [('a0', 'R')]),
+    ('literals-under-own-fixed-ctx', '@fp.fpy\ndef main(a0):\n    with fp.MPFixedContext({n}, fp.RM.RNE):\n        t = fp.round(0.3) + fp.round(0.7)\n        u = 0.1 + a0\n    return (t, u)\n', [('a0', 'R')]),
     ('ctx-declared', '@fp.fpy(ctx=fp.MPFloatContext(3, fp.RM.RTZ))\ndef main(a0):\n    return a0 / 3\n', [('a0', 'R')]),
     ('ctx-inherited-helper', '@fp.fpy\ndef h0(p0):\n    return p0 / 3\n\n@fp.fpy\ndef main(a0):\n    x = h0(a0)\n    with fp.MPFloatContext(2, fp.RM.RAZ):\n        y = h0(a0)\n    return (x, y, h0(y))\n', [('a0', 'R')]),
 ]
@@ -783,7 +857,7 @@ def hist_program(ch, kind):
         return p.src, p.params, p.min_len, p.features
     if kind == 'template':
         name, src, params = ch.choice(HIST_TEMPLATES)
-        src = src.replace('{k}', ch.choice(['2.0', '3.0', '0.5']))
+        src = src.replace('{k}', ch.choice(['2.0', '3.0', '0.5'])).replace('{n}', ch.choice(['-1', '-3', '-7', '-12', '-20']))
         feats = {'template:' + name}
         if 'capture' in name:
             feats |= {'captures', 'capture-mutating-profile'}
@@ -791,7 +865,16 @@ def hist_program(ch, kind):
     raise ValueError(kind)
 
 
-HIST_KINDS = ['general', 'small', 'cap-read', 'cap-mutate', 'cap-mutate', 'template', 'iso']
+SWEEP_CTXS = [
+    'fp.MPFixedContext(-1, fp.RM.RNE)', 'fp.MPFixedContext(-4, fp.RM.RTZ)', 'fp.MPFixedContext(-9, fp.RM.RNE)',
+    'fp.MPFixedContext(-30, fp.RM.RAZ)', 'fp.MPFixedContext(2, fp.RM.RTP)', 'fp.MPFixedContext(-2, fp.RM.RNA)',
+    'fp.FixedContext(True, -2, 12, fp.RM.RNE, fp.OV.SATURATE)', 'fp.FixedContext(True, -6, 16, fp.RM.RTZ, fp.OV.SATURATE)',
+    'fp.MPFloatContext(2, fp.RM.RTZ)', 'fp.MPFloatContext(11, fp.RM.RNE)', 'fp.MPFloatContext(200, fp.RM.RAZ)',
+    'fp.IEEEContext(5, 16, fp.RM.RNE)', 'fp.FP32', 'fp.MPSFloatContext(8, -10, fp.RM.RNE)', 'fp.INTEGER', 'fp.REAL', None,
+]
+HIST_CTXS = list(progen.CALLER_CTXS) + [c for c in SWEEP_CTXS if c is not None and 'Fixed' in c]
+
+HIST_KINDS = ['general', 'small', 'cap-read', 'cap-mutate', 'template', 'template', 'iso', 'iso']
 
 
 def hist_inputs(ch, params, min_len):
@@ -844,7 +927,7 @@ def run_history_machines(res: Result, seed32, n_machines, n_steps):
             if mi is not None:
                 res.cls('b:module:' + kind)
                 # every new module is evaluated once right away
-                self.h.evaluate(mi, 0, hist_inputs(ch, params, min_len), ch.choice(progen.CALLER_CTXS))
+                self.h.evaluate(mi, 0, hist_inputs(ch, params, min_len), ch.choice(HIST_CTXS), scr=ch.bool(0.5))
 
         @rule(s=seeds, kind=st.sampled_from(HIST_KINDS))
         def define_module(self, s, kind):
@@ -858,13 +941,20 @@ def run_history_machines(res: Result, seed32, n_machines, n_steps):
             mi = ch.int(0, len(self.h.modules) - 1)
             m = self.h.modules[mi]
             vi = ch.int(0, len(m['variants']) - 1) if ch.bool(0.3) else 0
-            self.h.evaluate(mi, vi, hist_inputs(ch, m['params'], m['min_len']), ch.choice(progen.CALLER_CTXS), interp)
+            self.h.evaluate(mi, vi, hist_inputs(ch, m['params'], m['min_len']), ch.choice(HIST_CTXS), interp, scr=ch.bool(0.5))
 
         @precondition(_has_triples)
         @rule(k=st.integers(0, 1 << 16), interp=st.sampled_from(['default', 'default', 'default', 'fresh', 'alt']))
         def re_evaluate(self, k, interp):
             mi, vi, _, ctx_text, args_enc = self.h.triples[k % len(self.h.triples)]
-            self.h.evaluate(mi, vi, args_enc, ctx_text, interp)
+            self.h.evaluate(mi, vi, args_enc, ctx_text, interp, scr=bool(k & 1))
+
+        @precondition(_has_triples)
+        @rule(k=st.integers(0, 1 << 16), s=seeds)
+        def sweep_contexts(self, k, s):
+            # the SAME function on the SAME arguments under contexts of every family (float / fixed, several precisions
+            # and least digits) in a drawn order, then the original triple again: a cache keyed too coarsely shows here
+            self.h.sweep(k, s)
 
         @precondition(_has_triples)
         @rule(k=st.integers(0, 1 << 16), strategy=st.sampled_from(STRATEGIES))
@@ -916,7 +1006,7 @@ def run_history_machines(res: Result, seed32, n_machines, n_steps):
             if h.triples:
                 # rotate through the triples: one re-evaluation after every step
                 mi, vi, _, ctx_text, args_enc = h.triples[len(h.steps) % len(h.triples)]
-                h.evaluate(mi, vi, args_enc, ctx_text, 'default', why='invariant')
+                h.evaluate(mi, vi, args_enc, ctx_text, 'default', why='invariant', scr=True)
 
     Machine.TestCase.settings = settings(max_examples=n_machines, stateful_step_count=n_steps, deadline=None, database=None,
                                          derandomize=False, report_multiple_bugs=False, phases=[Phase.generate],
@@ -930,16 +1020,21 @@ def template_histories(res: Result):
         for k in ('2.0', '3.0'):
             h = History(res)
             try:
-                s = src.replace('{k}', k)
+                s = src.replace('{k}', k).replace('{n}', '-3' if k == '2.0' else '-12')
                 feats = {'template:' + name} | ({'captures', 'capture-mutating-profile'} if 'capture' in name else set())
                 mi = h.define(s, params, {}, feats)
                 if mi is None:
                     continue
                 a1, a2 = enc_args([1.5]), enc_args([0.1])
+                h.evaluate(mi, 0, a1, None, scr=True)
+                h.evaluate(mi, 0, a2, 'fp.MPFloatContext(5, fp.RM.RTZ)', scr=True)
                 h.evaluate(mi, 0, a1, None)
-                h.evaluate(mi, 0, a2, 'fp.MPFloatContext(5, fp.RM.RTZ)')
-                h.evaluate(mi, 0, a1, None)
-                mj = h.define(src.replace('{k}', '0.5'), params, {}, feats)
+                fixed = [c for c in SWEEP_CTXS if c is not None and 'MPFixed' in c]      # listed coarse .. fine .. coarse
+                for c in (fixed if k == '2.0' else fixed[::-1]):
+                    h.evaluate(mi, 0, a2, c, scr=True)
+                    h.evaluate(mi, 0, enc_args([Fraction(1, 3)]), c)
+                h.sweep(0, 17 if k == '2.0' else 18, n=len(SWEEP_CTXS))
+                mj = h.define(src.replace('{k}', '0.5').replace('{n}', '-12' if k == '2.0' else '-3'), params, {}, feats)
                 h.evaluate(mj, 0, a1, None)
                 h.evaluate(mi, 0, a1, None)
                 nv = h.transform(mi, 0, 'simplify')
